@@ -57,9 +57,21 @@ mod verif_kani_value {
         f.write_str("D")
     }
 
+    // the other width's Display prints a different token: a writer that detours through the other
+    // float type (seed C11-r1: f64 values that are exactly an f32 printed with f32's shorter digits,
+    // which parse back to a different f64) is then judged instead of dragging the real formatter in
+    fn stub_other_f32_display(_v: &f32, f: &mut core::fmt::Formatter<'_>) -> core::fmt::Result {
+        f.write_str("E")
+    }
+
+    fn stub_other_f64_display(_v: &f64, f: &mut core::fmt::Formatter<'_>) -> core::fmt::Result {
+        f.write_str("E")
+    }
+
     #[kani::proof]
     #[kani::unwind(8)]
     #[kani::stub(<f64 as core::fmt::Display>::fmt, stub_f64_display)]
+    #[kani::stub(<f32 as core::fmt::Display>::fmt, stub_other_f32_display)]
     fn k11_f64_structure() {
         let v: f64 = kani::any();
         let s = printed(v);
@@ -82,6 +94,7 @@ mod verif_kani_value {
     #[kani::proof]
     #[kani::unwind(8)]
     #[kani::stub(<f32 as core::fmt::Display>::fmt, stub_f32_display)]
+    #[kani::stub(<f64 as core::fmt::Display>::fmt, stub_other_f64_display)]
     fn k11_f32_structure() {
         let v: f32 = kani::any();
         let s = printed32(v);
